@@ -54,7 +54,10 @@ MANIFEST = {
                 "gen_swap/gen_swap_self speak about the resulting heap and cells only (swap: cells exchanged, heap unchanged; swapChain_id), so a body "
                 "with another NUMBER of atomic operations meets them; atof of integers of any size (dOfNat_rounded, toDouble_fraction_int, "
                 "toDouble_numeral_any) and of texts without integer part (toDouble_fraction_noint); the nested walk over the translated accessors "
-                "(walkMutT_eq_partial: equal to the model's walk when every cell on the path is live).",
+                "(walkMutT_eq: equal to the model's walk when every cell on the path is live; walk_live: that follows from the invariant).  "
+                "Headline theorems over the translated accessors: deep_refines_translated, deep_driver_refines_translated, "
+                "deep_independent_translated, deep_independent_run_translated (dstepT/drunT/ddriveT run the translated toMap/toList/toArray at "
+                "every level of every nested mutable walk; dstepT_eq: equal to dstep on every state related to a store and every accepted line).",
         "note": "Trusted: Lean kernel + the three standard axioms; the translator tools/gen_variant.py (Python; its rules: NSTD_VERIF_RC_YIELD hook "
                 "macros dropped; `&other != this` is a parameter, `other` is read only where that test holds and never after clear(); `->~T()` detaches "
                 "the elements, which are destroyed right after delete[] (the model's order unlink-then-destroy); `->type = K; ->ref = N` of a new block "
@@ -68,9 +71,9 @@ MANIFEST = {
                 "swap is translated as calls of the translated copy constructor / operator= / destructor on named objects (aliasing `&other == this` as a "
                 "separate branch).  IeeeRat.lean is a copy of the codec area's rounding definitions (proved equal to them); atof texts without integer "
                 "part and integers above 2^64 are covered since the third leg (dOfNat); hex floats and %f remain definitions tied bit-exactly only.  "
-                "OPEN (PropsGenWalk.lean): WalkLive (every cell on a nested path is live) is not yet derived from the model's invariant, so "
-                "deep_refines/deep_independent are stated over the model's walkMut, whose accessor step is proved equal to the translated body "
-                "one step at a time (accessCellT_eq, held_live).  Doubles are opaque in the theorems (any semantics of ==, casts, atof, printf %f): every "
+                "In the walk over the translated accessors the container operations at the leaf (List/Array/HashMap members) and the slot "
+                "bookkeeping are still the hand-written model's.  A refused tree leaves a stub in the generated files, so the build fails with the "
+                "refusal message.  Doubles are opaque in the theorems (any semantics of ==, casts, atof, printf %f): every "
                 "statement about the floating alternative is definitional, the double coercions are covered by the correspondence run "
                 "against Python floats (bit-exact for toDouble/atof, byte-exact for %f); about the driver's IEEE instance (Ieee.lean) only "
                 "the integer conversion is proved: toDouble() of bool/integers is dOfInt of the stored integer and dOfInt is the correctly "
